@@ -1,7 +1,8 @@
 // C05 C06 C07 C09 harness: executes op lines on a real RotatingFileSink in a fresh directory under
 // a VIRTUAL wall clock and prints the directory listing after every line.
 //   argv[1] = scratch root (a fresh sub-directory is created per case and removed afterwards)
-//   case <L> <N> <opts> <gran ms> <base hex> <suffix hex> <t0 ms>   fresh directory, clock := t0, sink constructed
+//   case <L> <N> <opts> <gran ms> <base hex> <suffix hex> <t0 ms> <tz>   fresh directory, clock := t0, process time zone :=
+//        <tz> minutes east of UTC (a POSIX TZ string such as VRF-09:00, no tz database needed), sink constructed
 //   w <payload hex> | adv <ms> | restart | put <name hex> <bytes hex>
 // output per line: <name hex>:<mtime ms>:<content hex>;...   (sorted by name hex; "-" = empty)
 // The wall clock: this file defines gettimeofday / clock_gettime(CLOCK_REALTIME) / time itself
@@ -106,9 +107,16 @@ int main(int argc, char **argv)
         if (op == "case") {
             delete sink; sink = nullptr;
             if (!dir.isEmpty()) QDir(dir).removeRecursively();
-            std::string b, s; long long t0;
-            is >> L >> N >> o >> g_gran >> b >> s >> t0;
+            std::string b, s; long long t0; int tz = 0;
+            is >> L >> N >> o >> g_gran >> b >> s >> t0 >> tz;
             g_ms = t0;
+            {   // POSIX: the offset in TZ is what must be ADDED to local time to get UTC, i.e. west-positive
+                char buf[32];
+                int a = tz < 0 ? -tz : tz;
+                snprintf(buf, sizeof buf, "VRF%c%02d:%02d", tz > 0 ? '-' : '+', a / 60, a % 60);
+                setenv("TZ", tz == 0 ? "UTC" : buf, 1);
+                tzset();
+            }
             dir = root + QStringLiteral("/c%1").arg(ncase++);
             QDir(dir).removeRecursively();
             QDir().mkpath(dir);
